@@ -44,7 +44,8 @@ def conform_server(chk):
         f = chk.work / ("trace_server_%d_%d.json" % (it, len(bo)))
         f.write_text(json.dumps({"idle_timeout_ms": it, "backoffs_ms": list(bo), "traces": [{"log": r["lines"]} for r in rs]}))
         return tlc.run(SPECS / "server/TraceServer.tla", SPECS / "server/TraceServer.cfg", workdir=chk.work, deadlock=False,
-                       coverage=False, workers=2, env={"TRACE_FILE": str(f)}, jvm_opts=tlc.LIGHT, timeout=900)
+                       coverage=False, workers=2, env={"TRACE_FILE": str(f)}, jvm_opts=tlc.LIGHT, timeout=900,
+                       extra=("-continue",))          # an invariant failing on one trace does not end the validation of the others
 
     with ThreadPoolExecutor(max_workers=4) as ex:
         results = list(ex.map(one, jobs))
